@@ -49,6 +49,7 @@ func (s *sequencer) NextSequenceNumber() uint16 {
 	defer s.mutex.Unlock()
 
 	s.sequenceNumber++
+	verifYield()
 	if s.sequenceNumber == 0 {
 		s.rollOverCount++
 	}
